@@ -13,9 +13,60 @@
    scalar equation by `ring` after identifying the arguments of uninterpreted functions (sqrt, sin, inv, ...)
    up to ring equality.  Division is `mul _ (inv _)` (field_theory's Fdiv_def), so no non-zero side conditions arise:
    the equations hold because model and code perform the same divisions. *)
-From Coq Require Import Ring Field ZArith QArith List Bool String.
+From Coq Require Import Ring Field ZArith QArith List Bool String Lia.
 From CG Require Import Scalar Exec.ExecQ Proofs.Alg.
 Import ListNotations.
+
+(* integer constants: `cast(2)` is `ofQ O (2 # 1)` in the model; a rewrite of the code may compute `c + c` where the
+   model has `c * cast(2)`.  With the embedding of literals a ring homomorphism (OfQHom, Proofs/Alg.v) integer-valued
+   constants are rewritten into sums of ones, which `ring` understands. *)
+Section IntConst.
+  Variable F : Type.
+  Variable O : Ops F.
+  Hypothesis Rth : ring_theory (zero O) (one O) (add O) (mul O) (sub O) (opp O) eq.
+  Hypothesis HQ : OfQHom O.
+  Add Ring Rr : Rth.
+  Fixpoint pos_ring (p : positive) : F :=
+    match p with
+    | xH => one O
+    | xO p' => add O (pos_ring p') (pos_ring p')
+    | xI p' => add O (one O) (add O (pos_ring p') (pos_ring p'))
+    end.
+  Lemma ofQ_pos p : ofQ O (Zpos p # 1) = pos_ring p.
+  Proof using Rth HQ.
+    induction p as [p IH | p IH | ]; cbn [pos_ring].
+    - rewrite <- IH, <- (ofQ_1 O HQ), <- !(ofQ_add O HQ). apply (ofQ_eq O HQ).
+      unfold Qeq, Qplus; cbv [Qnum Qden]; lia.
+    - rewrite <- IH, <- (ofQ_add O HQ). apply (ofQ_eq O HQ).
+      unfold Qeq, Qplus; cbv [Qnum Qden]; lia.
+    - rewrite <- (ofQ_1 O HQ). apply (ofQ_eq O HQ). reflexivity.
+  Qed.
+  Lemma ofQ_zero : ofQ O (0 # 1) = zero O.
+  Proof using Rth HQ.
+    assert (E : ofQ O (0 # 1) = add O (ofQ O (0 # 1)) (ofQ O (0 # 1))).
+    { rewrite <- (ofQ_add O HQ). apply (ofQ_eq O HQ). reflexivity. }
+    assert (E' : sub O (ofQ O (0 # 1)) (ofQ O (0 # 1)) = sub O (add O (ofQ O (0 # 1)) (ofQ O (0 # 1))) (ofQ O (0 # 1))) by (rewrite <- E; reflexivity).
+    transitivity (sub O (add O (ofQ O (0 # 1)) (ofQ O (0 # 1))) (ofQ O (0 # 1))); [ring|]. rewrite <- E'. ring.
+  Qed.
+  Lemma ofQ_neg p : ofQ O (Zneg p # 1) = opp O (pos_ring p).
+  Proof using Rth HQ.
+    assert (E : add O (ofQ O (Zneg p # 1)) (ofQ O (Zpos p # 1)) = zero O).
+    { rewrite <- (ofQ_add O HQ), <- ofQ_zero. apply (ofQ_eq O HQ). unfold Qeq, Qplus; cbv [Qnum Qden]; lia. }
+    rewrite <- ofQ_pos.
+    transitivity (sub O (add O (ofQ O (Zneg p # 1)) (ofQ O (Zpos p # 1))) (ofQ O (Zpos p # 1))); [ring|]. rewrite E. ring.
+  Qed.
+End IntConst.
+
+Ltac sym_ints Rth HQ O :=
+  repeat match goal with
+  | |- context [ofQ O (Zpos ?p # 1)] => rewrite (ofQ_pos Rth HQ p)
+  | |- context [ofQ O (Zneg ?p # 1)] => rewrite (ofQ_neg Rth HQ p)
+  | |- context [ofQ O (0 # 1)] => rewrite (ofQ_zero Rth HQ)
+  | H : context [ofQ O (Zpos ?p # 1)] |- _ => rewrite (ofQ_pos Rth HQ p) in H
+  | H : context [ofQ O (Zneg ?p # 1)] |- _ => rewrite (ofQ_neg Rth HQ p) in H
+  | H : context [ofQ O (0 # 1)] |- _ => rewrite (ofQ_zero Rth HQ) in H
+  end;
+  cbv [pos_ring] in *.
 
 Definition grun {F} (t : list (string * (list F -> gval F))) (f : string) (args : list F) : gval F :=
   match dispatch t f with Some h => h args | None => GBad end.
@@ -126,7 +177,7 @@ Ltac sym_asym Hasym O :=
       end
   end.
 
-Ltac sym_tie Fth Hasym O T A :=
+Ltac sym_tie Fth Hasym HQ O T A :=
   intros;
   repeat match goal with x := _ |- _ => subst x end;
   sym_unfold;
@@ -134,6 +185,7 @@ Ltac sym_tie Fth Hasym O T A :=
   try (progress (repeat match goal with
                         | H : ?f (ofQ O ?q) = ?v |- context [?f (ofQ O ?q)] => rewrite H
                         end); sym_unfold);
+  sym_ints (F_R Fth) HQ O;
   sym_asym Hasym O;
   repeat (progress (repeat sym_cond Fth O T A; cbv beta iota));
   first [ reflexivity | sym_split; sym_eq Fth O T ].
